@@ -1,6 +1,8 @@
 //! Kani harnesses over the server-event buffering code lifted verbatim out of
 //! `src/shared/event/server_event.rs` (C05, C07, C04).
+// REQUIRES: src/shared/backend/replicon_server.rs
 use super::*;
+use crate::shared::backend::replicon_server::verif_kani as srv;
 
 fn noop_bytes_drop(_b: &mut Bytes) {}
 
@@ -95,20 +97,24 @@ fn send_all_case_n(authorized: [bool; 3], modes: [SendMode; 2], joiner: usize, e
     // ---- every client receives exactly the events meant for it, once, in order, stamped with ITS tick
     let mut got = [[false; 2]; 2];
     let mut order_ok = true;
-    for (to, channel, message) in server.drain_sent() {
+    // The send store is inspected in place (recipient, channel, length): draining it or reading
+    // message contents makes CBMC run out of memory as soon as a second message exists (P28).
+    let sent = srv::sent_count(&server);
+    let mut index = 0;
+    while index < sent {
+        let (to, channel, len) = srv::sent_info(&server, index);
+        index += 1;
         assert!(channel == 0);
         let c = if to == CLIENTS[0] { 0 } else { 1 };
         assert!(to == CLIENTS[c]);
-        // Events are identified by their length (tick stamp of 1 byte + payload of 1 or 2 bytes);
-        // message content is not read here.
-        assert!(message.len() == 2 || message.len() == 3);
-        let e = message.len() - 2;
+        // Events are identified by their length (tick stamp of 1 byte + payload of 1 or 2 bytes).
+        assert!(len == 2 || len == 3);
+        let e = len - 2;
         assert!(!got[c][e]); // at most once
         if e == 0 && got[c][1] {
             order_ok = false; // first event after the second one
         }
         got[c][e] = true;
-        core::mem::forget(message);
     }
     assert!(order_ok);
     for c in 0..2 {
@@ -122,7 +128,7 @@ fn send_all_case_n(authorized: [bool; 3], modes: [SendMode; 2], joiner: usize, e
     let mut again = RepliconServer::default();
     again.set_running(true);
     buffered.send_all(&mut again, &Query::new(&mut rows)).unwrap();
-    assert!(again.drain_sent().count() == 0);
+    assert!(srv::sent_count(&again) == 0);
     core::mem::forget((rows, buffered, server, again));
 }
 
@@ -142,6 +148,24 @@ fn c07_unauthorized_gets_nothing() {
     send_all_case_n([true, false, true], [mode, SendMode::Broadcast], 3, 1);
     kani::cover!(matches!(mode, SendMode::Direct(e) if e == CLIENTS[1]), "direct event to the unauthorized client");
     kani::cover!(matches!(mode, SendMode::BroadcastExcept(e) if e == SERVER), "broadcast except the local server");
+}
+
+// HARNESS: c07_broadcast_skips_unauthorized
+// PROPS: C07 C05
+// TIER: quick
+// TIMEOUT: 1200
+// DRIVES: BufferedServerEvents::start_tick, BufferedServerEvents::insert, BufferedServerEvents::send_all, BufferedServerEvent::send, SerializedMessage::get_bytes
+// BOUNDS: an authorized client followed (in query order) by a connected client that is not authorized; one broadcast event, then (second scenario) one broadcast-except-the-local-server event; concrete scenarios (kept next to the symbolic-mode harness because a wrongly delivered second message makes the symbolic one intractable instead of refuted); unwind 8
+#[kani::proof]
+#[kani::unwind(8)]
+#[kani::stub(<bytes::Bytes as core::ops::Drop>::drop, noop_bytes_drop)]
+#[kani::stub(<bytes::Bytes as core::clone::Clone>::clone, bytes_clone)]
+#[kani::stub(log::max_level, log_off)]
+fn c07_broadcast_skips_unauthorized() {
+    send_all_case_n([true, false, true], [SendMode::Broadcast, SendMode::Broadcast], 3, 1);
+    send_all_case_n([true, false, true], [SendMode::BroadcastExcept(SERVER), SendMode::Broadcast], 3, 1);
+    kani::cover!(true, "scenarios executed");
+    kani::cover!(CLIENTS[1] != CLIENTS[0], "two different clients");
 }
 
 // HARNESS: c05_late_joiner
